@@ -6,7 +6,9 @@
    exhausted: every theorem gives the answer for all sufficiently large f). *)
 From Coq Require Import List NArith.
 From DSD Require Import Base.Str Base.Errors Base.Val Model.Peg Model.DispatchPeg
-  Proofs.PegMono Proofs.PegStd Proofs.PegDoc Proofs.C13Base Proofs.C13Doc Proofs.PilLex Proofs.C13Dl.
+  Proofs.PegMono Proofs.PegStd Proofs.PegDoc Proofs.C13Base Proofs.C13Doc Proofs.PilLex Proofs.C13Lex
+  Proofs.C13Dl Proofs.C13Ms Proofs.C13Sl Proofs.C13Cd Proofs.C13Kc Proofs.C13Rx Proofs.C13Sc Proofs.C13Rej
+  Proofs.C13Full.
 From DSDGen Require Import PilGrammar.
 Import ListNotations.
 
@@ -74,3 +76,184 @@ Theorem C13_roundtrip_dl_domain_parse_string : forall s y b E,
   exists f0, forall f, f0 <= f -> parse_pil_fuel f (b ++ dl_render s y ++ E) = vals [dl_tree s].
 Proof. exact roundtrip_dl_domain_parse. Qed.
 Print Assumptions C13_roundtrip_dl_domain_parse_string.
+
+(* Round trip, macrostate statement: (state | macrostate) NAME = [ NAME (, NAME)* ], every
+   list length, every layout; guard: the keyword is separated from the name by a blank
+   (`statex = ...` is a kernel-notation complex). *)
+Theorem C13_roundtrip_macrostate : forall s y,
+  ms_stmt_ok s -> ms_layout_ok y -> pil_body_ok (ms_render s y) [ms_tree s].
+Proof. exact roundtrip_macrostate. Qed.
+Print Assumptions C13_roundtrip_macrostate.
+
+Theorem C13_roundtrip_macrostate_parse_string : forall s y b E,
+  ms_stmt_ok s -> ms_layout_ok y -> blanks pil_ws b -> stmt_end E [] ->
+  no_tab (b ++ ms_render s y ++ E) ->
+  exists f0, forall f, f0 <= f -> parse_pil_fuel f (b ++ ms_render s y ++ E) = vals [ms_tree s].
+Proof. exact roundtrip_macrostate_parse. Qed.
+Print Assumptions C13_roundtrip_macrostate_parse_string.
+
+(* Round trip, sequence-constraint statement: sequence NAME[*] (=|:) LETTERS [(=|:) DIGITS] *)
+Theorem C13_roundtrip_sl_domain : forall s y,
+  sl_stmt_ok s -> sl_layout_ok y -> pil_body_ok (sl_render s y) [sl_tree s].
+Proof. exact roundtrip_sl_domain. Qed.
+Print Assumptions C13_roundtrip_sl_domain.
+
+Theorem C13_roundtrip_sl_domain_parse_string : forall s y b E,
+  sl_stmt_ok s -> sl_layout_ok y -> blanks pil_ws b -> stmt_end E [] ->
+  no_tab (b ++ sl_render s y ++ E) ->
+  exists f0, forall f, f0 <= f -> parse_pil_fuel f (b ++ sl_render s y ++ E) = vals [sl_tree s].
+Proof. exact roundtrip_sl_domain_parse. Qed.
+Print Assumptions C13_roundtrip_sl_domain_parse_string.
+
+(* Round trip, strand / sup-sequence statement: (strand | sup-sequence) NAME (=|:) DOMAIN+ [(=|:) DIGITS] *)
+Theorem C13_roundtrip_composite_domain : forall s y,
+  cd_stmt_ok s -> cd_layout_ok y -> pil_body_ok (cd_render s y) [cd_tree s].
+Proof. exact roundtrip_composite_domain. Qed.
+Print Assumptions C13_roundtrip_composite_domain.
+
+Theorem C13_roundtrip_composite_domain_parse_string : forall s y b E,
+  cd_stmt_ok s -> cd_layout_ok y -> blanks pil_ws b -> stmt_end E [] ->
+  no_tab (b ++ cd_render s y ++ E) ->
+  exists f0, forall f, f0 <= f -> parse_pil_fuel f (b ++ cd_render s y ++ E) = vals [cd_tree s].
+Proof. exact roundtrip_composite_domain_parse. Qed.
+Print Assumptions C13_roundtrip_composite_domain_parse_string.
+
+(* Kernel patterns (shared with C12): every item of a pattern -- a domain name with
+   optional ^ and *, a strand break +, a loop NAME( PATTERN? ) of any nesting depth, with any
+   blanks -- is parsed by the pattern node to exactly its tokens *)
+Theorem C13_kernel_pattern_item_parses : forall it full rest x,
+  item_wf it rest -> std_pre pil_ws x = item_body it rest ->
+  evals pil_nodes full 210 true (At x) (POk (At rest) (item_toks it)).
+Proof. exact item_parses_any. Qed.
+Print Assumptions C13_kernel_pattern_item_parses.
+
+(* Round trip, kernel-notation complex NAME = PATTERN (without concentration), all names,
+   nestings and layouts; guard: the name does not start with a statement keyword *)
+Theorem C13_roundtrip_kernel_complex : forall s full b E k,
+  blanks pil_ws b -> stmt_end E k -> kc_stmt_ok s (E ++ k) ->
+  evals pil_nodes full pil_stmt true (At (b ++ kc_render s ++ E ++ k)) (POk (after pil_ws k) [kc_tree s]).
+Proof. exact roundtrip_kernel_complex. Qed.
+Print Assumptions C13_roundtrip_kernel_complex.
+
+Theorem C13_roundtrip_kernel_complex_parse_string : forall s b E,
+  blanks pil_ws b -> stmt_end E [] -> kc_stmt_ok s E -> no_tab (b ++ kc_render s ++ E) ->
+  exists f0, forall f, f0 <= f -> parse_pil_fuel f (b ++ kc_render s ++ E) = vals [kc_tree s].
+Proof. exact roundtrip_kernel_complex_parse. Qed.
+Print Assumptions C13_roundtrip_kernel_complex_parse_string.
+
+(* Round trip, reaction without rate information: (kinetic | reaction) NAME (+ NAME)* -> NAME (+ NAME)*;
+   guard: the arrow is preceded by a blank (`-` is an identifier character) *)
+Theorem C13_roundtrip_reaction : forall s y,
+  rx_stmt_ok s -> rx_layout_ok y -> pil_body_ok (rx_render s y) [rx_tree s].
+Proof. exact roundtrip_reaction. Qed.
+Print Assumptions C13_roundtrip_reaction.
+
+Theorem C13_roundtrip_reaction_parse_string : forall s y b E,
+  rx_stmt_ok s -> rx_layout_ok y -> blanks pil_ws b -> stmt_end E [] ->
+  no_tab (b ++ rx_render s y ++ E) ->
+  exists f0, forall f, f0 <= f -> parse_pil_fuel f (b ++ rx_render s y ++ E) = vals [rx_tree s].
+Proof. exact roundtrip_reaction_parse. Qed.
+Print Assumptions C13_roundtrip_reaction_parse_string.
+
+(* Round trip, strand-notation complex, `structure` form: the dot-bracket token is exactly the
+   rendered dot-bracket with the blanks it contains (maximal run over `( ) . +` and the space) *)
+Theorem C13_roundtrip_structure : forall s y full b E k,
+  st_ok s y (E ++ k) -> blanks pil_ws b -> stmt_end E k -> nohead dbch (E ++ k) ->
+  evals pil_nodes full pil_stmt true (At (b ++ st_kw ++ st_tail_text s y (E ++ k))) (POk (after pil_ws k) [st_tree s]).
+Proof. exact roundtrip_structure. Qed.
+Print Assumptions C13_roundtrip_structure.
+
+(* ... `complex` form, with its two optional line ends *)
+Theorem C13_roundtrip_complex : forall s y full b E k,
+  cx_ok s y -> blanks pil_ws b -> stmt_end E k -> nohead dbch (E ++ k) ->
+  evals pil_nodes full pil_stmt true (At (b ++ cx_kw ++ cx_tail_text s y (E ++ k))) (POk (after pil_ws k) [cx_tree s]).
+Proof. exact roundtrip_complex. Qed.
+Print Assumptions C13_roundtrip_complex.
+
+Theorem C13_roundtrip_structure_parse_string : forall s y b E,
+  st_ok s y E -> blanks pil_ws b -> stmt_end E [] -> nohead dbch E ->
+  no_tab (b ++ st_kw ++ st_tail_text s y E) ->
+  exists f0, forall f, f0 <= f -> parse_pil_fuel f (b ++ st_kw ++ st_tail_text s y E) = vals [st_tree s].
+Proof. exact roundtrip_structure_parse. Qed.
+Print Assumptions C13_roundtrip_structure_parse_string.
+
+Theorem C13_roundtrip_complex_parse_string : forall s y b E,
+  cx_ok s y -> blanks pil_ws b -> stmt_end E [] -> nohead dbch E ->
+  no_tab (b ++ cx_kw ++ cx_tail_text s y E) ->
+  exists f0, forall f, f0 <= f -> parse_pil_fuel f (b ++ cx_kw ++ cx_tail_text s y E) = vals [cx_tree s].
+Proof. exact roundtrip_complex_parse. Qed.
+Print Assumptions C13_roundtrip_complex_parse_string.
+
+(* Rejection: a document whose first statement the statement node refuses raises ParseException *)
+Theorem C13_reject_document : forall pls b y,
+  Forall pil_blank_line pls -> blanks pil_ws b -> stmt_start pil_ws y ->
+  (forall full b', blanks pil_ws b' -> evals pil_nodes full pil_stmt true (At (b' ++ y)) PFail) ->
+  let D := concat pls ++ b ++ y in
+  no_tab D ->
+  exists f0, forall f, f0 <= f -> parse_pil_fuel f D = err eParse.
+Proof. exact pil_document_reject. Qed.
+Print Assumptions C13_reject_document.
+
+(* Rejection, missing assignment sign: KEYWORD NAME[*] X..., X neither `=` nor `:`, for the
+   three domain-length keywords: refused by every one of the 13 statement alternatives *)
+Theorem C13_reject_missing_assign : forall s pls b,
+  noassign_ok s -> Forall pil_blank_line pls -> blanks pil_ws b ->
+  no_tab (concat pls ++ b ++ noassign_text s) ->
+  exists f0, forall f, f0 <= f -> parse_pil_fuel f (concat pls ++ b ++ noassign_text s) = err eParse.
+Proof. exact reject_missing_assign. Qed.
+Print Assumptions C13_reject_missing_assign.
+
+(* Rejection, malformed number: a digit string followed by junk that is not a statement
+   end (`5x`, `1.`, `1e`, `1_000`, `1,5`, a non-ASCII digit, ...) in a domain-length statement *)
+Theorem C13_reject_malformed_number : forall s y pls b,
+  badnum_ok s y -> Forall pil_blank_line pls -> blanks pil_ws b ->
+  no_tab (concat pls ++ b ++ badnum_text s y) ->
+  exists f0, forall f, f0 <= f -> parse_pil_fuel f (concat pls ++ b ++ badnum_text s y) = err eParse.
+Proof. exact reject_malformed_number. Qed.
+Print Assumptions C13_reject_malformed_number.
+
+(* REFUTED on the faithful model (and on the implementation): "a statement with a missing
+   name is rejected".  `length = 5` is a kernel-notation complex called `length`. *)
+Theorem C13_reject_missing_name_refuted :
+  parse_pil [108; 101; 110; 103; 116; 104; 32; 61; 32; 53; 10]%N
+  = vals [TList [TStr [107; 101; 114; 110; 101; 108; 45; 99; 111; 109; 112; 108; 101; 120]%N;
+                 TStr [108; 101; 110; 103; 116; 104]%N; TList [TStr [53%N]]]].
+Proof. exact missing_name_refuted. Qed.
+Print Assumptions C13_reject_missing_name_refuted.
+
+(* the lexical classes of the dialect (specification) are the character sets of the table *)
+Theorem C13_lexical_classes :
+  idch = spec_idch /\ alpha = spec_alpha /\ digit = spec_digit /\ pil_ws = spec_blank /\ pil_cs4 = spec_dotbracket.
+Proof. exact pil_lexical_classes. Qed.
+Print Assumptions C13_lexical_classes.
+
+Theorem C13_words_over_lexical_classes : forallb word_class_ok pil_nodes = true.
+Proof. exact pil_words_over_classes. Qed.
+Print Assumptions C13_words_over_lexical_classes.
+
+(* ---- full statements not yet proved (kept visible; listed under `partial` in the evidence) ---- *)
+
+(* reaction with rate information [NAME (=|:) RATE [+/- (RATE|inf)] /UNIT.../TIME] *)
+Definition C13_roundtrip_reaction_infobox_full : Prop := forall s y i,
+  rx_stmt_ok s -> rx_layout_ok y -> infobox_ok i -> pil_body_ok (rxi_render s y i) [rxi_tree s i].
+
+(* kernel-notation complex with concentration  @ (initial|i|constant|c) NUMBER UNIT *)
+Definition C13_roundtrip_kernel_concentration_full : Prop := forall s c full b E k,
+  blanks pil_ws b -> stmt_end E k -> kc_stmt_ok s (conc_text c ++ E ++ k) -> conc_ok c ->
+  evals pil_nodes full pil_stmt true (At (b ++ kcc_render s c ++ E ++ k)) (POk (after pil_ws k) [kcc_tree s c]).
+
+(* layouts with tabs: every *_parse_string theorem above without its `no_tab` hypothesis (parse_string expands
+   tabs to spaces before parsing; the expanded text is again a rendering with other blank runs), e.g. *)
+Definition C13_roundtrip_dl_domain_tabs_full : Prop := forall s y b E,
+  dl_stmt_ok s -> dl_layout_ok y -> blanks pil_ws b -> stmt_end E [] ->
+  exists f0, forall f, f0 <= f -> parse_pil_fuel f (b ++ dl_render s y ++ E) = vals [dl_tree s].
+
+(* rejection of unbalanced kernel brackets, for all patterns *)
+Definition C13_reject_unbalanced_kernel_full : Prop := forall s pls b E junk,
+  kc_stmt_ok s (41%N :: junk) -> Forall pil_blank_line pls -> blanks pil_ws b -> stmt_end E [] ->
+  no_tab (concat pls ++ b ++ kc_render s ++ 41%N :: junk ++ E) ->
+  exists f0, forall f, f0 <= f -> parse_pil_fuel f (concat pls ++ b ++ kc_render s ++ 41%N :: junk ++ E) = err eParse.
+
+(* the default fuel of parse_pil suffices for every text (termination of the interpreter within
+   (|text| + 2) * |table| nested calls); observed on every correspondence case, not proved *)
+Definition C13_default_fuel_suffices_full : Prop := forall text, parse_pil text <> err eFuel.
